@@ -1,34 +1,62 @@
-import FstVerif.Model.Stream
+import FstVerif.Proofs.Seek
 /-
-C03 — range streams. (The main theorem `C03_range` is assembled from
-Proofs/Stream.lean once that file is delivered; this file holds the
-statements about the bound setters and the bound predicate.)
+C03 — range streams. Statements here; proofs in Proofs/Stream.lean (explicit
+stack = denotation, cut-off at the upper bound) and Proofs/Seek.lean (lower
+bound). About any node access representing a good store (builder output is
+one: Proofs/Build.lean, Proofs/Codec.lean).
 -/
-namespace Fst
+namespace Fst.Props
+open Fst
+variable {N : Type} {s : Store} {den : Nat → KV} {acc : NodeAccess N}
+
+/-- for every lower bound (none / ge / gt) and upper bound (none / le / lt) over
+arbitrary byte strings, the range stream never panics, yields exactly the
+entries satisfying both bounds, in the order of the denotation, and then ends -/
+theorem C03_range (hg : GoodStore s den) (hr : Represents acc s) (root : Nat)
+    (hroot : root = 0 ∨ ∃ n, (root, n) ∈ s) (min max : Bound) :
+    ∃ s0, streamNew acc autAlways root min max = some s0 ∧
+    ∃ N, ∀ fuel, N ≤ fuel →
+      streamCollect acc autAlways root fuel s0 [] =
+        some (((den root).filter fun kv => lowerOK min kv.1 && upperOK max kv.1).map
+                fun kv => (kv.1, kv.2, ())) := stream_correct_always hg hr root hroot min max
+
+/-- the yielded keys are strictly ascending -/
+theorem C03_ascending (hg : GoodStore s den) (root : Nat) (hroot : root = 0 ∨ ∃ n, (root, n) ∈ s)
+    (min max : Bound) :
+    (((den root).filter fun kv => lowerOK min kv.1 && upperOK max kv.1 && autAlways.accepts kv.1).map
+        fun kv => (kv.1, kv.2, autAlways.run autAlways.start kv.1)).Pairwise
+      fun a b => lexLt a.1 b.1 = true := stream_result_ascending hg root hroot autAlways min max
+
+/-- what the bound predicates mean -/
+theorem C03_bounds (b k : Key) :
+    lowerOK .unbounded k = true ∧ lowerOK (.included b) k = !lexLt k b ∧ lowerOK (.excluded b) k = lexLt b k ∧
+    upperOK .unbounded k = true ∧ upperOK (.included b) k = !lexLt b k ∧ upperOK (.excluded b) k = lexLt k b := by
+  simp [lowerOK, upperOK, Bound.exceededBy]
 
 /-- setting the same kind of bound twice uses the last setting -/
-theorem C03_last_setting_wins_lower (r : RangeSpec) (a b : Key) :
-    (r.ge a).ge b = r.ge b ∧ (r.gt a).ge b = r.ge b ∧ (r.ge a).gt b = r.gt b ∧ (r.gt a).gt b = r.gt b :=
-  ⟨rfl, rfl, rfl, rfl⟩
-
-theorem C03_last_setting_wins_upper (r : RangeSpec) (a b : Key) :
+theorem C03_last_setting_wins (r : RangeSpec) (a b : Key) :
+    (r.ge a).ge b = r.ge b ∧ (r.gt a).ge b = r.ge b ∧ (r.ge a).gt b = r.gt b ∧ (r.gt a).gt b = r.gt b ∧
     (r.le a).le b = r.le b ∧ (r.lt a).le b = r.le b ∧ (r.le a).lt b = r.lt b ∧ (r.lt a).lt b = r.lt b :=
-  ⟨rfl, rfl, rfl, rfl⟩
+  ⟨rfl, rfl, rfl, rfl, rfl, rfl, rfl, rfl⟩
 
-/-- lower and upper setters do not disturb each other -/
 theorem C03_setters_independent (r : RangeSpec) (a b : Key) :
     ((r.ge a).le b).min = .included a ∧ ((r.le b).ge a).max = .included b ∧
     ((r.gt a).lt b).min = .excluded a ∧ ((r.lt b).gt a).max = .excluded b :=
   ⟨rfl, rfl, rfl, rfl⟩
 
-/-- `exceeded_by`: an inclusive bound is exceeded by strictly greater keys only,
-an exclusive bound also by the bound itself, no bound by nothing -/
-theorem C03_exceededBy (v k : Key) :
-    (Bound.included v).exceededBy k = lexLt v k ∧
-    (Bound.excluded v).exceededBy k = !lexLt k v ∧
-    Bound.unbounded.exceededBy k = false :=
-  ⟨rfl, rfl, rfl⟩
+/-- after the stream has ended it keeps returning `None` -/
+theorem C03_stays_done (hg : GoodStore s den) (hr : Represents acc s) (root : Nat)
+    (hroot : root = 0 ∨ ∃ n, (root, n) ∈ s) (min max : Bound) :
+    ∃ s0, streamNew acc autAlways root min max = some s0 ∧
+    ∃ N, ∀ fuel, N ≤ fuel → ∃ sEnd items,
+      streamDrain acc autAlways root fuel s0 [] = some (items, sEnd) ∧
+      ∀ fuel', streamNext acc autAlways root (fuel' + 1) sEnd = some (none, sEnd) := by
+  obtain ⟨s0, h0, N, hN⟩ := stream_correct_fused (A := autAlways) hg hr root hroot
+    autAlways_contract.1 autAlways_contract.2 min max
+  exact ⟨s0, h0, N, fun fuel hf => by
+    obtain ⟨sEnd, h1, h2⟩ := hN fuel hf
+    exact ⟨sEnd, _, h1, h2⟩⟩
 
-example : (({} : RangeSpec).ge [1]).gt [2] = ({} : RangeSpec).gt [2] := rfl
+example : GoodStore StreamExample.exStore StreamExample.exDen := StreamExample.exGood
 
-end Fst
+end Fst.Props
